@@ -4,7 +4,20 @@ usage: tools_seeded.py <dir-with-patches> [Cxx-n ...]   (applies each patch to /
 import json, os, subprocess, sys, time, glob
 root = sys.argv[1]
 only = sys.argv[2:]
-out_path = '/verif/seeded/RESULTS.json'   # committed: latest result per seeded change + history of earlier runs
+# SEEDED_VERIF: run the checks of a snapshot copy of /verif (so that /verif can be edited meanwhile); results then go to
+# SEEDED_OUT (merge them into /verif/seeded/RESULTS.json with `tools_seeded.py --merge <file>`)
+VERIF = os.environ.get('SEEDED_VERIF', '/verif')
+out_path = os.environ.get('SEEDED_OUT', '/verif/seeded/RESULTS.json')   # committed: latest result per seeded change + history of earlier runs
+if root == '--merge':
+    cur = json.load(open('/verif/seeded/RESULTS.json'))
+    new = json.load(open(sys.argv[2]))
+    for k, v in new.items():
+        if k in cur and cur[k].get('at') != v.get('at'):
+            old = cur[k]
+            v['history'] = old.get('history', []) + ([{'status': old['status'], 'classes': old.get('classes', []), 'at': old.get('at')}] if old.get('status') else [])
+        cur[k] = v
+    json.dump(cur, open('/verif/seeded/RESULTS.json', 'w'), indent=1)
+    print('merged', len(new)); sys.exit(0)
 try:
     results = json.load(open(out_path))
 except Exception:
@@ -33,7 +46,7 @@ for d in sorted(glob.glob(os.path.join(root, 'C??-?'))):
     else:
         sh(f'git -C /repo apply {patch}')
     t0 = time.time()
-    c = sh(f'cd /verif && ./check {prop} --tier quick', timeout=3600)
+    c = sh(f'cd {VERIF} && ./check {prop} --tier quick', timeout=3600)
     lines = [l for l in c.stdout.split('\n') if l.startswith('VIOLATION') or l.startswith('BROKEN') or l.startswith('INTERNAL') or l.startswith('KNOWN-FINDING')]
     classes = []
     for l in lines:
